@@ -4,4 +4,6 @@ go 1.25.0
 
 require github.com/mutagen-io/mutagen v0.0.0
 
+require golang.org/x/sys v0.43.0 // indirect
+
 replace github.com/mutagen-io/mutagen => /repo
